@@ -139,11 +139,12 @@ def do_import(pid, name, prefix="seed"):
 
 if __name__ == "__main__":
     a = sys.argv[1:]
-    if a[0] in ("import", "import2"):
-        do_import(a[1], a[2], "seed" if a[0] == "import" else "seed2")
-        if a[0] == "import2":
-            subprocess.run(["git", "-C", "/repo", "worktree", "remove", "--force", "/tmp/seed2-%s" % a[1]])
-            shutil.rmtree("/tmp/seed2-%s-out" % a[1], ignore_errors=True)
+    if a[0] in ("import", "import2", "import3"):
+        pref = {"import": "seed", "import2": "seed2", "import3": "seed3"}[a[0]]
+        do_import(a[1], a[2], pref)
+        if a[0] != "import":
+            subprocess.run(["git", "-C", "/repo", "worktree", "remove", "--force", "/tmp/%s-%s" % (pref, a[1])])
+            shutil.rmtree("/tmp/%s-%s-out" % (pref, a[1]), ignore_errors=True)
         sys.exit(0)
     tier = a[a.index("--tier") + 1] if "--tier" in a else "quick"
     props = a[a.index("--props") + 1].split(",") if "--props" in a else None
